@@ -233,6 +233,20 @@ def run(ctx, driver):
 def replay(rp):
     from harness.core import cases
     tb.import_toolbox()
-    r = cases.case_full({"indict": rp["failing_input"], "stop": True, "flags": {"disable_analytic_solver": True}})
-    print(json.dumps({"x": r.get("x"), "J": r.get("J"), "J_true": r.get("J_true")}, indent=1))
-    return 0 if r.get("J") == r.get("J_true") else 1
+    fi = rp["failing_input"]
+    if "dynamics" not in fi:
+        print("replay of the numerical clause: run ./check C10 quick (the failing system is one of the fixed systems listed in the replay file)")
+        return 0
+    complete = "after" in str(rp.get("detail", {}).get("signature", {})) or rp.get("kind") == "jacobian-entry-wrong"
+    bad = False
+    for stop, flags in ((True, {"disable_analytic_solver": True}), (False, {})):
+        r = cases.case_full({"indict": fi, "stop": stop, "flags": flags, "poly": False})
+        print(json.dumps({"complete_analysis": not stop, "x": r.get("x"), "J": r.get("J"), "J_true": r.get("J_true"), "J_stored": r.get("J_stored")}, indent=1)[:1500])
+        for ref in ("J_true", "J_stored"):
+            if r.get("J") and r.get(ref):
+                for ra, rb in zip(r["J"], r[ref]):
+                    for a, b in zip(ra, rb):
+                        if a is not None and b is not None and not numeval.close(Fraction(a), Fraction(b), Fraction(1, 10 ** 11)):
+                            bad = True
+    print("reproduced" if bad else "not reproduced")
+    return 1 if bad else 0
